@@ -41,10 +41,15 @@ func syntheticCommon(degBits uint64, challenges, routed, qdf, nGate uint64) type
 	return c
 }
 
-func plonkCase(name string, cm types.CommonCircuitData, r *Run) fieldCase {
+// plonkCase: with before set, a chip for that other description is built first (and dropped), so that the
+// case does not depend on what else ran in the process.
+func plonkCase(name string, cm types.CommonCircuitData, r *Run, before ...types.CommonCircuitData) fieldCase {
 	var self fieldCase
 	self = fieldCase{name: name, acceptReplay: func() string { return plonkAcceptReplay(self, cm, r) }, bound: fmt.Sprintf("all openings and challenges symbolic; %d challenge rounds, %d routed wires, quotient degree factor %d, %d partial products, %d (opaque) gate constraints, degree bits %d", cm.Config.NumChallenges, cm.Config.NumRoutedWires, cm.QuotientDegreeFactor, cm.NumPartialProducts, cm.NumGateConstraints, cm.DegreeBits),
 		build: func(fc *fctx) ([]frontend.Variable, []*ref.N) {
+			for _, b := range before {
+				plonk.NewPlonkChip(fc.api, b)
+			}
 			chip := plonk.NewPlonkChip(fc.api, cm)
 			nc := int(cm.Config.NumChallenges)
 			qe := func(pfx string, n int) ([]gl.QuadraticExtensionVariable, []ref.E) {
@@ -222,8 +227,18 @@ func runC16(r *Run) {
 	if r.Thorough() {
 		shapes = append(shapes, sh{2, 1, 2, 2, 0}, sh{4, 2, 16, 8, 5}, sh{7, 3, 8, 2, 4}, sh{12, 2, 80, 8, 10}, sh{10, 1, 16, 1, 1})
 	}
-	for _, s := range shapes {
+	for i, s := range shapes {
 		cases = append(cases, plonkCase(fmt.Sprintf("PlonkChip.Verify[synthetic deg=%d ch=%d routed=%d qdf=%d]", s.deg, s.ch, s.routed, s.qdf), syntheticCommon(s.deg, s.ch, s.routed, s.qdf, s.ng), r))
+		if i == 1 {
+			// twins of this description in the same process: other coset shifts, then another degree, everything
+			// else equal (a chip must take these from its own description, whatever was built before)
+			tw := syntheticCommon(s.deg, s.ch, s.routed, s.qdf, s.ng)
+			for j := range tw.KIs {
+				tw.KIs[j] = 11*uint64(j)*uint64(j) + uint64(j) + 9
+			}
+			cases = append(cases, plonkCase(fmt.Sprintf("PlonkChip.Verify[synthetic deg=%d ch=%d routed=%d qdf=%d, other coset shifts]", s.deg, s.ch, s.routed, s.qdf), tw, r, syntheticCommon(s.deg, s.ch, s.routed, s.qdf, s.ng)))
+			cases = append(cases, plonkCase(fmt.Sprintf("PlonkChip.Verify[synthetic deg=%d ch=%d routed=%d qdf=%d]", s.deg+1, s.ch, s.routed, s.qdf), syntheticCommon(s.deg+1, s.ch, s.routed, s.qdf, s.ng), r, tw))
+		}
 	}
 	cases = append(cases, plonkCase("PlonkChip.Verify[test_circuit]", base.Common, r))
 	if r.Thorough() {
